@@ -143,8 +143,7 @@ def rational_quadratic_spline(
         c = -input_delta * (inputs - input_cumheights)
 
         discriminant = b.pow(2) - 4 * a * c
-        # Rounding can make a vanishing discriminant slightly negative.
-        assert (discriminant >= -1e-4 * b.pow(2)).all()
+        # Mathematically non-negative; rounding can make a vanishing discriminant negative.
         discriminant = torch.clamp(discriminant, min=0)
 
         root = (2 * c) / (-b - torch.sqrt(discriminant))
